@@ -10,7 +10,7 @@ import uuid
 import zlib
 
 from vf.explore import Stats
-from vf.common import coverage_from_stats
+from vf.common import coverage_from_stats, deadline, EvaluationHang
 
 PID = "C06"
 MAGIC = 0x4dc5
@@ -321,7 +321,10 @@ def converse_task(unit):
         if fp not in seen:
             seen.add(fp)
             st.violations.append({"fingerprint": fp, "what": "%s; mutation=%s spec=%r" % (what, label, spec), "replay": {"kind": "converse", "spec": list(spec), "mutation": label}})
+    hung = [0]
     for spec in specs:
+        if hung[0] >= 2:
+            break       # a decoder that does not terminate has been reported; the rest of this unit would only wait for it again and again
         config.reset(False)
         try:
             msg, payload, anns = build(protocol, config, current_context, spec)
@@ -344,12 +347,19 @@ def converse_task(unit):
                     ref_ok = True
                 except RefReject as x:
                     ref, ref_ok, why = None, False, str(x)
+                lab = label.split("=")[0].split("@")[0]
                 try:
-                    m = protocol.ReceivingMessage(mut[:40], mut[40:])
+                    with deadline(2):
+                        m = protocol.ReceivingMessage(mut[:40], mut[40:])
                     impl, impl_ok = impl_fields(m), True
                 except Exception as x:
                     impl, impl_ok, ierr = None, False, x
-                lab = label.split("=")[0].split("@")[0]
+                except EvaluationHang:
+                    V("decoder-does-not-terminate|%s" % lab, "ReceivingMessage neither accepted nor refused these bytes within 2 s", spec, label)
+                    hung[0] += 1
+                    if hung[0] >= 2:
+                        break
+                    continue
                 if impl_ok and not ref_ok:
                     V("decoder-accepts-malformed|%s|%s" % (lab, why), "ReceivingMessage accepted bytes the layout forbids (%s): decoded %r" % (why, {k: impl[k] for k in ("type", "flags", "anns")}), spec, label)
                 elif ref_ok and not impl_ok:
@@ -385,10 +395,17 @@ def converse_task(unit):
                 conn = socketutil.SocketConnection(sock)
                 conn.keep_open = True
                 try:
-                    g = protocol.recv_stub(conn)
+                    with deadline(2):
+                        g = protocol.recv_stub(conn)
                     simpl, simpl_ok = impl_fields(g), True
                 except Exception as x:
                     simpl, simpl_ok, serr = None, False, x
+                except EvaluationHang:
+                    V("decoder-does-not-terminate|stream|%s" % lab, "recv_stub neither accepted nor refused these bytes within 2 s", spec, label)
+                    hung[0] += 1
+                    if hung[0] >= 2:
+                        break
+                    continue
                 if simpl_ok and not sref_ok:
                     V("stream-decoder-accepts-malformed|%s|%s" % (lab, swhy), "recv_stub accepted (%s)" % swhy, spec, label)
                 elif sref_ok and not simpl_ok:
